@@ -4,9 +4,9 @@
 (* an `obs` event; a panic, a watchdog timeout or a crash of the process are *)
 (* events no action of this specification matches.  For the rva binary the   *)
 (* accepted outcome is exit status 0 within the time limit and no panic      *)
-(* message.  Growth: the sweep counters of every pass stay within 2N+3 and   *)
+(* message.  Growth: the sweep counters of every pass stay within 4N+3 and   *)
 (* the parse loop within one iteration per token plus one per file.          *)
-EXTENDS Integers, Sequences, TLC, Json, IOUtils
+EXTENDS Integers, Sequences, TLC, Json, IOUtils, PassOps
 Rec == ndJsonDeserialize(IOEnv.TRACE)
 VARIABLES l
 vars == <<l>>
@@ -14,7 +14,7 @@ vars == <<l>>
 RECURSIVE SweepBad(_, _, _)
 SweepBad(sw, n, i) ==
   IF i > Len(sw) THEN {}
-  ELSE (IF sw[i].n > 2 * n + 3 THEN { "C06:sweeps-exceed-2N+3:" \o sw[i].pass } ELSE {}) \cup SweepBad(sw, n, i + 1)
+  ELSE (IF sw[i].n > SweepLimit(n) THEN { "C06:sweeps-exceed-limit:" \o sw[i].pass } ELSE {}) \cup SweepBad(sw, n, i + 1)
 
 Judge(e) ==
   CASE e.ev \in {"obs", "skipped"} -> {}
